@@ -249,6 +249,20 @@ func c19Exec(p *harness.Plan) *harness.Outcome {
 			name, ts = "inside-far", start+uint64(vr.Int64N(int64(gap)))
 		}
 		accept := fits(ts) && tx == nil
+		if !accept {
+			// a variant is forbidden relative to what the round holds; a node that has not applied all of
+			// that yet (delay, duplication, reordering) may legitimately see it fit, and two certified
+			// snapshots that exclude each other cannot both come from honest signers anyway: the variant is
+			// only offered once every node holds the whole round
+			for _, held := range ch.snaps {
+				for i := 0; i < inj.n; i++ {
+					if s, _ := c.Nodes[i].Store.ReadSnapshot(held.PayloadHash()); s == nil {
+						kinds["variant-postponed:round-not-everywhere-yet"]++
+						return
+					}
+				}
+			}
+		}
 		it := inj.place(ch, ch.number, ts, tx, accept)
 		kinds[name]++
 		if accept {
